@@ -2,6 +2,7 @@ package main
 
 import (
 	"go/token"
+	"go/types"
 	"strings"
 
 	"golang.org/x/tools/go/ssa"
@@ -248,5 +249,418 @@ func checkTruncateMeasured(c *Ctx, h *ssa.Function) {
 	}
 	if len(sites) == 0 {
 		c.anchorMissing("dns.Msg.Truncate call on the reply (Handle or its helper)")
+	}
+}
+
+// checkNoDeadlineAfterRelease (round 12; C02-R14): in the reuse transport's reader, once the connection was made
+// available to the next exchange (setIdle) or the reply was handed over, the reader sets no deadline on the connection
+// before its next read: a late idle deadline overwrites the next query's reply deadline, the healthy connection is
+// closed under a reply that would have arrived in time.
+func checkNoDeadlineAfterRelease(c *Ctx) {
+	rl := c.fn(relTransport, "reusableConn", "readLoop")
+	if rl == nil {
+		return
+	}
+	isDeadline := func(x ssa.Instruction) bool {
+		ci, ok := x.(ssa.CallInstruction)
+		if !ok || !ci.Common().IsInvoke() {
+			return false
+		}
+		switch ci.Common().Method.Name() {
+		case "SetReadDeadline", "SetDeadline":
+			return true
+		}
+		return false
+	}
+	isRead := func(x ssa.Instruction) bool {
+		ci, ok := x.(ssa.CallInstruction)
+		if !ok {
+			return false
+		}
+		if ci.Common().IsInvoke() {
+			n := ci.Common().Method.Name()
+			return n == "Read" || n == "ReadFrom"
+		}
+		n := callNameCommon(ci.Common())
+		return strings.Contains(n, "dnsutils.Read") || n == "io.ReadFull"
+	}
+	n := 0
+	eachInstrDeep(rl, func(g *ssa.Function, in ssa.Instruction) {
+		if g != rl {
+			return
+		}
+		release := false
+		if ci, ok := in.(*ssa.Call); ok && strings.HasSuffix(callName(ci), ".setIdle") {
+			release = true
+		}
+		if sel, ok := in.(*ssa.Select); ok {
+			for _, st := range sel.States {
+				if st.Dir == types.SendOnly {
+					release = true
+				}
+			}
+		}
+		if _, ok := in.(*ssa.Send); ok {
+			release = true
+		}
+		if !release {
+			return
+		}
+		n++
+		late, found := reachAvoiding(in, isDeadline, isRead)
+		pos := instrPos(in)
+		if found {
+			pos = instrPos(late)
+		}
+		c.check(!found, "no-deadline-after-release@readLoop", pos, "after the connection is released / the reply handed over the reader sets no deadline before its next read",
+			"the reader sets a read deadline after it made the connection available to the next exchange: that exchange's own reply deadline is overwritten by the idle deadline, a reply that arrives in time finds the connection closed")
+	})
+	if n == 0 {
+		c.anchorMissing("setIdle / reply hand-over in reusableConn.readLoop")
+	}
+}
+
+// Round 12, stream framing (C16-R2, C02-R8, C03, C17):
+//   - no-upper-limit: inside the frame reader the decoded length is compared with nothing but the 12-byte minimum
+//     (a cap below 65535 turns correct large replies into errors);
+//   - frame-read-not-repeated-after-error@F: in the transports, from a frame read no path leads back to a frame read
+//     of the same function without passing the edge "the read returned no error" (after a framing error the announced
+//     body was not consumed: the stream position is unknown, the next "length" is read from the middle of a frame);
+//   - frame-reader-arg-not-per-frame-wrapper@F: what a call site hands to the frame reader is not a buffering wrapper
+//     made for that one frame (its read-ahead — the next pipelined frames — is thrown away with it).
+func checkFrameDiscipline(c *Ctx) {
+	p := c.P
+	rd := c.fn(relDnsutils, "", "ReadRawMsgFromTCP")
+	if rd == nil {
+		return
+	}
+	// (1) no upper limit
+	{
+		var lenVals []ssa.Value
+		eachInstr(rd, func(in ssa.Instruction) {
+			if ci, ok := in.(*ssa.Call); ok && strings.HasSuffix(callName(ci), ".Uint16") {
+				lenVals = append(lenVals, ci)
+			}
+		})
+		isLen := func(v ssa.Value) bool {
+			v = stripConv(v)
+			for _, l := range lenVals {
+				if v == l {
+					return true
+				}
+			}
+			return false
+		}
+		bad := ""
+		var badPos = rd.Pos()
+		eachInstr(rd, func(in ssa.Instruction) {
+			bo, ok := in.(*ssa.BinOp)
+			if !ok {
+				return
+			}
+			switch bo.Op {
+			case token.LSS, token.LEQ, token.GTR, token.GEQ, token.EQL, token.NEQ:
+			default:
+				return
+			}
+			x, y, op := bo.X, bo.Y, bo.Op
+			if isLen(y) {
+				x, y, op = y, x, flipOp(op)
+			}
+			if !isLen(x) {
+				return
+			}
+			k, isC := constInt(y)
+			if isC && op == token.LSS && k == 12 {
+				return
+			}
+			if bad == "" {
+				bad, badPos = exprStr(bo), instrPos(in)
+			}
+		})
+		c.check(len(lenVals) > 0 && bad == "", "frame-reader:no-upper-limit", badPos, "the announced length is only tested against the 12-byte minimum",
+			"the frame reader also tests the announced length with "+bad+": a correct frame of a size the length field can express (up to 65535) is refused — e.g. the TCP reply a truncated UDP reply was retried for")
+	}
+	// frame readers and their wrappers in the transports (a wrapper hands the reader's error back)
+	type frd struct{ errIdx int }
+	readers := map[*ssa.Function]frd{rd: {1}}
+	if rmt := p.Func(relDnsutils, "", "ReadMsgFromTCP"); rmt != nil {
+		readers[rmt] = frd{rmt.Signature.Results().Len() - 1}
+	}
+	errIdxOf := func(ci *ssa.Call) (int, bool) {
+		sc := staticCallee(ci)
+		if sc == nil {
+			return 0, false
+		}
+		r, ok := readers[sc]
+		return r.errIdx, ok
+	}
+	for changed, round := true, 0; changed && round < 3; round++ {
+		changed = false
+		for _, f := range p.funcsIn(relTransport, relServer) {
+			if _, is := readers[f]; is || f.Signature.Results().Len() == 0 {
+				continue
+			}
+			fn := f
+			eachInstr(f, func(in ssa.Instruction) {
+				ci, ok := in.(*ssa.Call)
+				if !ok {
+					return
+				}
+				ei, ok := errIdxOf(ci)
+				if !ok {
+					return
+				}
+				for _, ret := range returnsOf(fn) {
+					rv := returnedValues(ret)
+					for i, v := range rv {
+						for _, r := range referrers(ci) {
+							ex, ok := r.(*ssa.Extract)
+							if !ok || ex.Index != ei {
+								continue
+							}
+							for _, m := range withMergingPhis(ex) {
+								if m == v {
+									if _, is := readers[fn]; !is {
+										readers[fn] = frd{i}
+										changed = true
+									}
+								}
+							}
+						}
+					}
+				}
+			})
+		}
+	}
+	nSites := 0
+	for _, f := range p.funcsIn(relTransport, relServer, relDnsutils) {
+		fn := f
+		eachInstr(f, func(in ssa.Instruction) {
+			ci, ok := in.(*ssa.Call)
+			if !ok {
+				return
+			}
+			ei, ok := errIdxOf(ci)
+			if !ok {
+				return
+			}
+			nSites++
+			// (2) no way back to a frame read of this function except over "err == nil"
+			isFrameRead := func(x ssa.Instruction) bool {
+				c2, ok := x.(*ssa.Call)
+				if !ok {
+					return false
+				}
+				_, is := errIdxOf(c2)
+				return is
+			}
+			// the read's error result, or a phi that merges it with a sibling read's (`if tcp { r, err = readA() } else { … }`)
+			errVals := map[ssa.Value]bool{}
+			for _, r := range referrers(ci) {
+				if ex, ok := r.(*ssa.Extract); ok && ex.Index == ei {
+					for _, v := range withMergingPhis(ex) {
+						errVals[v] = true
+					}
+				}
+			}
+			var again ssa.Instruction
+			seen := map[*ssa.BasicBlock]bool{}
+			var walk func(b *ssa.BasicBlock, from int) bool
+			walk = func(b *ssa.BasicBlock, from int) bool {
+				for i := from; i < len(b.Instrs); i++ {
+					if isFrameRead(b.Instrs[i]) {
+						again = b.Instrs[i]
+						return true
+					}
+				}
+				iff, isIf := terminator(b).(*ssa.If)
+				for i, s := range b.Succs {
+					if isIf {
+						if cm, ok := (guard{Cond: iff.Cond, Truth: i == 0, If: iff}).asCmp(); ok {
+							x, y := cm.X, cm.Y
+							if isNilConst(x) {
+								x, y = y, x
+							}
+							if errVals[x] && isNilConst(y) && cm.Op == token.EQL {
+								continue // the read succeeded: the stream is at a frame boundary
+							}
+						}
+					}
+					if !seen[s] {
+						seen[s] = true
+						if walk(s, 0) {
+							return true
+						}
+					}
+				}
+				return false
+			}
+			repeated := walk(ci.Block(), idxInBlock(ci)+1)
+			pos := instrPos(in)
+			if repeated {
+				pos = instrPos(again)
+			}
+			c.check(!repeated, "frame-read-not-repeated-after-error@"+funcName(fn), pos, "after a failed frame read the stream is not read again",
+				"after a frame read that returned an error (e.g. a length below 12, whose announced body was not consumed) the same stream is read again: the next length field is taken from the middle of a frame, arbitrary bytes are handed out as replies")
+			// (3) the reader handed in
+			sc := staticCallee(ci)
+			if _, base := map[*ssa.Function]bool{rd: true}[sc]; base || sc.Pkg.Pkg.Path() == modPath+"/"+relDnsutils {
+				arg := ci.Call.Args[0]
+				for {
+					if mi, ok := arg.(*ssa.MakeInterface); ok {
+						arg = mi.X
+						continue
+					}
+					if chi, ok := arg.(*ssa.ChangeInterface); ok {
+						arg = chi.X
+						continue
+					}
+					break
+				}
+				perFrame := ""
+				if w, ok := arg.(*ssa.Call); ok {
+					wn := callName(w)
+					if strings.HasPrefix(wn, "bufio.") || strings.HasPrefix(wn, "io.") {
+						_, wInLoop := reachAvoiding(w, func(x ssa.Instruction) bool { return x == ssa.Instruction(w) }, nil)
+						_, rInLoop := reachAvoiding(ci, func(x ssa.Instruction) bool { return x == ssa.Instruction(ci) }, nil)
+						if wInLoop || !rInLoop {
+							perFrame = wn
+						}
+					}
+				}
+				c.check(perFrame == "", "frame-reader-arg-not-per-frame-wrapper@"+funcName(fn), instrPos(in), "the frame reader reads from the connection (or a wrapper that lives as long as it)",
+					"the frame reader is given a "+perFrame+" wrapper made for this one frame: what the wrapper read ahead (the following pipelined queries / replies) is thrown away with it, those messages are never answered")
+			}
+		})
+	}
+	if nSites == 0 {
+		c.anchorMissing("call sites of the frame reader")
+	}
+}
+
+// checkNoReleaseAfterHandover (round 12; C01-R7): a pooled buffer that was sent on a channel (bare, or as a field of the
+// struct that is sent) belongs to the receiver: the sender does not release it afterwards. (The reverse order, use or
+// send after release, is the typestate rule's.) The DoQ stream reader released the reply "when the caller is gone" after
+// it had put it into the buffered result channel — the caller's ctx-case poll could still take it.
+func checkNoReleaseAfterHandover(c *Ctx, funcs []*ssa.Function) {
+	n := 0
+	for _, f := range funcs {
+		fn := f
+		var sends []ssa.Instruction
+		sentVals := map[ssa.Instruction][]ssa.Value{}
+		eachInstr(f, func(in ssa.Instruction) {
+			switch x := in.(type) {
+			case *ssa.Send:
+				sends = append(sends, in)
+				sentVals[in] = []ssa.Value{x.X}
+			case *ssa.Select:
+				for _, st := range x.States {
+					if st.Dir == types.SendOnly {
+						sentVals[in] = append(sentVals[in], st.Send)
+					}
+				}
+				if len(sentVals[in]) > 0 {
+					sends = append(sends, in)
+				}
+			}
+		})
+		if len(sends) == 0 {
+			continue
+		}
+		mentions := func(v, x ssa.Value) bool {
+			if v == x {
+				return true
+			}
+			if ld, ok := v.(*ssa.UnOp); ok && ld.Op == token.MUL {
+				if al, ok := ld.X.(*ssa.Alloc); ok {
+					for _, r := range referrers(al) {
+						fa, ok := r.(*ssa.FieldAddr)
+						if !ok {
+							continue
+						}
+						for _, r2 := range referrers(fa) {
+							if st, ok := r2.(*ssa.Store); ok && st.Val == x {
+								return true
+							}
+						}
+					}
+				}
+			}
+			return false
+		}
+		eachInstr(f, func(in ssa.Instruction) {
+			ci, ok := in.(*ssa.Call)
+			if !ok || callName(ci) != poolRel || len(ci.Call.Args) != 1 {
+				return
+			}
+			x := ci.Call.Args[0]
+			for _, s := range sends {
+				ment := false
+				for _, v := range sentVals[s] {
+					ment = ment || mentions(v, x)
+				}
+				if !ment {
+					continue
+				}
+				n++
+				// the same SSA value in a later loop iteration is another buffer: paths that pass x's definition again do not count
+				redef := func(y ssa.Instruction) bool {
+					xi, ok := x.(ssa.Instruction)
+					return ok && y == xi
+				}
+				_, after := reachAvoiding(s, func(y ssa.Instruction) bool { return y == in }, redef)
+				// a select whose send case was not the one taken may release: only the path through the send's own case counts
+				if sel, isSel := s.(*ssa.Select); isSel && after {
+					after = false
+					if cases, _, okD := decodeSelect(sel); okD {
+						for _, cs := range cases {
+							if cs.State.Dir == types.SendOnly && cs.Body != nil {
+								if _, r := reachFromBlock(cs.Body, func(y ssa.Instruction) bool { return y == in }, redef); r {
+									after = true
+								}
+							}
+						}
+					} else {
+						after = true
+					}
+				}
+				c.check(!after, "no-release-after-handover@"+funcName(fn), instrPos(in), "a buffer that was sent is not released by the sender",
+					"the buffer "+exprStr(x)+" is released after it was sent on a channel: the receiver (e.g. the caller's ctx-case poll) can still take it — it then holds a buffer that the pool hands to another query")
+			}
+		})
+	}
+	if n == 0 {
+		c.ok("no-release-after-handover", token.NoPos, "no function releases a buffer that it also sends")
+	}
+}
+
+// checkAttemptDeadlineFresh (round 12; C08-R8): the I/O deadline of an attempt on a reused connection is computed by
+// that attempt (time.Now() + a constant, in the connection's exchange): a deadline computed once for the whole call is
+// already over when the retry that follows a silently dead connection starts, the fresh connection's write fails at
+// once and the failure is reported although the retry could have succeeded.
+func checkAttemptDeadlineFresh(c *Ctx) {
+	ex := c.fn(relTransport, "reusableConn", "exchange")
+	if ex == nil {
+		return
+	}
+	n := 0
+	eachInstr(ex, func(in ssa.Instruction) {
+		ci, ok := in.(*ssa.Call)
+		if !ok || !ci.Call.IsInvoke() {
+			return
+		}
+		switch ci.Call.Method.Name() {
+		case "SetDeadline", "SetReadDeadline", "SetWriteDeadline":
+		default:
+			return
+		}
+		n++
+		d, okD := deadlineConst(ci.Call.Args[0])
+		c.check(okD, "attempt-deadline-fresh@reusableConn.exchange", instrPos(in), "the attempt's deadline is time.Now() + "+d+", computed by the attempt",
+			"the deadline armed for an attempt ("+exprStr(ci.Call.Args[0])+") is not computed by the attempt itself: a retry on a fresh connection inherits a deadline that is already over and fails at once")
+	})
+	if n == 0 {
+		c.anchorMissing("deadline call in reusableConn.exchange")
 	}
 }
